@@ -260,6 +260,25 @@ TWO_BR = ["f[1-2]-[0-1]", "g[0-1]x[2-3]"]
 USERS = ["u1", "u2", "bob", "root", "x_y"]
 
 
+def gen_hostexpr(rng):
+    """host expressions over a few stems and a small set of numbers, so that names that are string prefixes
+    of one another (n1/n10/n100, web/web1, a/ab/a1), zero-padded twins (n1/n01) and overlapping ranges are
+    the normal case rather than an accident"""
+    base = rng.choice(["n", "n", "h", "k", "web", "a", "ab"])
+    nums = ["1", "2", "3", "9", "10", "11", "12", "100", "01", "02"]
+    r = rng.random()
+    if r < 0.15 and base in ("web", "a", "ab"):
+        return base
+    if r < 0.5:
+        return base + rng.choice(nums)
+    if r < 0.78:
+        lo = rng.choice([1, 1, 2, 9, 10, 99])
+        return "%s[%d-%d]" % (base, lo, lo + rng.randrange(0, 3))
+    if r < 0.92:
+        return "%s[%s]" % (base, ",".join(rng.sample(["1", "2", "10", "11", "3-4", "10-12", "100", "01"], rng.choice([2, 3]))))
+    return "%s[%s]" % (base, rng.choice(["01-03", "08-10", "1-2"]))
+
+
 def gen_reg_case(rng, transports):
     c = {"loaded": None, "argv": [], "env": {}, "words": [], "excl": [], "l": None, "R": None, "envtype": None}
     extra = rng.sample(["r04", "r06", "r07", "r08"], rng.choice([0, 1, 1, 2, 3]))
@@ -270,7 +289,8 @@ def gen_reg_case(rng, transports):
     cur = []
     bad = rng.random() < 0.06
     for k in range(nwords):
-        he = rng.choice(HOSTEXPRS) if rng.random() > 0.04 else rng.choice(TWO_BR)
+        r0 = rng.random()
+        he = rng.choice(TWO_BR) if r0 < 0.04 else (rng.choice(HOSTEXPRS) if r0 < 0.3 else gen_hostexpr(rng))
         r = rng.random()
         if r < 0.35:
             w = he
@@ -433,6 +453,18 @@ def part_c(ctx, cov, dist, rng, repo, only=None):
             dist["reg_nodomain"] += 1
             continue
         key = (tuple(c["words"]), c["l"], c["R"], c["envtype"], tuple(c["excl"]))
+        # coverage: two targets, one name a proper string prefix of the other, that must be contacted differently
+        want = {}
+        for x in s.split()[1:]:
+            t_, h_, u_, _ = x.split("|")
+            want[unhx(h_)] = (t_, u_)
+        hs = sorted(want)
+        if any(a != b and b.startswith(a) and want[a] != want[b] for a in hs for b in hs):
+            dist["reg_prefix_pair_differs"] = dist.get("reg_prefix_pair_differs", 0) + 1
+        if len(set(targets)) < len(targets):
+            dist["reg_repeated_host"] = dist.get("reg_repeated_host", 0) + 1
+        if c["excl"]:
+            dist["reg_excluded"] = dist.get("reg_excluded", 0) + 1
         annotated = sum(1 for w in c["words"] if "@" in w or ":" in w)
         if annotated >= 1 and len(set(targets)) < len(targets) or annotated >= 2:
             distinct.add(key)
@@ -597,7 +629,7 @@ class RshPeer:
                         back.close()
                         back = None
             while data.count(b"\0") < 4:
-                b = c.recv(1)
+                b = c.recv(65536)
                 if not b:
                     break
                 data += b
@@ -632,7 +664,7 @@ def part_d(ctx, cov, dist, rng, repo, only=None):
         return
     exe = os.path.join(repo, "src/pdsh/pdsh")
     luser = pwd.getpwuid(os.getuid()).pw_name
-    n = 40 if ctx.quick() else 400
+    n = 60 if ctx.quick() else 500
     dist["rsh"] = 0
     nviol0 = len(ctx.violations)
     try:
@@ -649,6 +681,13 @@ def part_d(ctx, cov, dist, rng, repo, only=None):
                     want[a] = None
             l = rng.choice([None, None, "bob", "u2"])
             cmd = rng.choice([["true"], ["echo", "a  b", "%h%%"], ["sh", "-c", "x;y  z"], ["uname", "-a", "%"], ["c", "", "d"]])
+            if rng.random() < 0.45:
+                # long commands: the whole request (port, users, command) straddles the usual buffer sizes
+                total = rng.choice([1020, 1024, 2040, 2047, 2048, 2049, 2060, 4095, 4096, 4097, 8191, 8192, 8193,
+                                    20000, 65000]) + rng.randrange(-3, 4)
+                base = len(" ".join(cmd)) + 1
+                pad = max(1, total - base - 16)
+                cmd = cmd + [("y" * (pad - 1)) + "Z"]
             return {"addrs": addrs, "words": words, "want": want, "l": l, "cmd": cmd}
         for g in ((gen() for _ in range(n)) if only is None else only):
             if len(ctx.violations) - nviol0 >= 3:
@@ -673,8 +712,8 @@ def part_d(ctx, cov, dist, rng, repo, only=None):
                 cov["evaluations"] += 1
                 dist["rsh"] += 1
                 if not pl.startswith("ok "):
-                    ctx.offender("rsh:malformed-request", "the rsh request for %s is not four NUL-terminated fields: %r" % (
-                        addr, data), dict(case, request=data.hex()))
+                    ctx.offender("rsh:malformed-request", "the rsh request for %s (%d bytes) is not four NUL-terminated "
+                                 "fields: %r ..." % (addr, len(data), data[:80]), dict(case, request_len=len(data)))
                     continue
                 pf, lu, ru, cm = [unhx(x) for x in pl.split()[1:]]
                 exp_ru = want.get(addr) or l or luser
@@ -683,7 +722,13 @@ def part_d(ctx, cov, dist, rng, repo, only=None):
                 if not (okport and lu == luser and ru == exp_ru and cm == exp_cmd):
                     ctx.offender("rsh:request", "rsh request for %s is (port %r, local %r, remote %r, command %r, stderr "
                                                 "channel connected: %s); specified (a listening port, %r, %r, %r)" % (
-                        addr, pf, lu, ru, cm, backok, luser, exp_ru, exp_cmd), dict(case, request=data.hex()))
+                        addr, pf, lu, ru, cm[:60] + ("..." if len(cm) > 60 else ""), backok, luser, exp_ru,
+                        exp_cmd[:60] + ("..." if len(exp_cmd) > 60 else "")), dict(case, request_len=len(data), command_len=len(cm),
+                                                                                    expected_command_len=len(exp_cmd)))
+                dist.setdefault("rsh_request_len", {})
+                bucket = "<=1024" if len(data) <= 1024 else "<=2048" if len(data) <= 2048 else "<=4096" if len(data) <= 4096 \
+                    else "<=8192" if len(data) <= 8192 else ">8192"
+                dist["rsh_request_len"][bucket] = dist["rsh_request_len"].get(bucket, 0) + 1
                 # correspondence with the model of xrcmd's write order
                 ml = ctx.model("rcmd", "writes %s %s %s %s\n" % (pf if pf else "none", hx(luser), hx(exp_ru), hx(exp_cmd)),
                                args=["model", "unchanged"])
